@@ -467,7 +467,7 @@ func initRollingFileLogger(
 			return err
 		}
 	}
-	return nil
+	return f.logger.Start()
 }
 
 // Append forwards the event to the underlying logger.
@@ -482,6 +482,9 @@ func (f *RollingFileLogger) Write(b []byte) {
 
 // Stop stops all appenders.
 func (f *RollingFileLogger) Stop() {
+	if f.logger != nil {
+		f.logger.Stop() // flush the inner (possibly asynchronous) logger first
+	}
 	for _, a := range f.appenders {
 		a.Stop()
 	}
